@@ -5,6 +5,7 @@
 //	setprobe save <dir> <namehex> <pubhex> <privhex> database.SaveEntity
 //	setprobe del  <dir> <keyhex>                     fileStorage.Delete
 //	setprobe delent <dir> <namehex>                  database.DeleteEntity
+//	setprobe pairadd <dir> <namehex> <pubhex>        pair.PairingController.Handle of an add request (POST /pairings, method 3)
 //	setprobe cfg  <dir> <idhex> <versionhex> <hashhex>   the three consecutive Sets of Config.save (config.go)
 //	setprobe start <dir> <pin> <name> [lightbulb]    hc.NewIPTransport on the directory (one switch / lightbulb accessory), not started
 //	setprobe relstore <base> <rel> <keyhex> <valhex> chdir(base); NewFileStorage(rel); Set; chdir("/"); Get and list → stdout
@@ -19,6 +20,7 @@ import (
 	"github.com/brutella/hc"
 	"github.com/brutella/hc/accessory"
 	"github.com/brutella/hc/db"
+	"github.com/brutella/hc/hap/pair"
 	"github.com/brutella/hc/util"
 )
 
@@ -95,6 +97,14 @@ func main() {
 		err = st.Delete(string(unhex(a[0])))
 	case os.Args[1] == "delent" && len(a) == 1:
 		db.NewDatabaseWithStorage(st).DeleteEntity(db.NewEntity(string(unhex(a[0])), nil, nil))
+	case os.Args[1] == "pairadd" && len(a) == 2:
+		in := util.NewTLV8Container()
+		in.SetByte(pair.TagSequence, 1)
+		in.SetByte(pair.TagPairingMethod, pair.PairingMethodAdd.Byte())
+		in.SetString(pair.TagUsername, string(unhex(a[0])))
+		in.SetBytes(pair.TagPublicKey, unhex(a[1]))
+		in.SetByte(pair.TagPermission, pair.AdminPerm)
+		_, err = pair.NewPairingController(db.NewDatabaseWithStorage(st)).Handle(in)
 	case os.Args[1] == "cfg" && len(a) == 3:
 		// Config.save is unexported; these are its three statements (config.go)
 		st.Set("uuid", unhex(a[0]))
